@@ -263,7 +263,12 @@ impl VM {
                 }
                 OpCode::GetGlobal => {
                     let idx = self.read_u16();
-                    let value = self.globals[idx as usize];
+                    // a global that has not been set (yet) reads as null
+                    let value = self
+                        .globals
+                        .get(idx as usize)
+                        .copied()
+                        .unwrap_or(Object::null());
                     self.push(value);
                 }
                 OpCode::SetLocal => {
